@@ -187,6 +187,11 @@ def _judge(ctx: Context, tree: str, N: Names, entry: FuncInfo, level: str, s: Sr
     for fn, frag, cls, reason in INFEASIBLE:
         if cls == s.cls and frag.replace(" ", "") in construct and (func_part.endswith(fn) or func_part.endswith(N.t(fn))):
             return
+    # `self._connections.remove(<x>)` inside the assignment pass: infeasible when <x> was read from that very list (whatever the local is called)
+    if s.cls == "ValueError" and construct.startswith("self._connections.remove(") and (func_part.endswith("_assign_requests_to_connections")):
+        ok = _removed_from_same_list(ctx, N, construct)
+        if ok:
+            return
     # checked side conditions (R3)
     if s.cls == "h11.LocalProtocolError" and "start_next_cycle" in construct:
         ok = _start_next_cycle_guarded(ctx, N)
@@ -203,6 +208,15 @@ def _judge(ctx: Context, tree: str, N: Names, entry: FuncInfo, level: str, s: Sr
     rep.ob("C15.R1", okey, False, loc_,
            f"{s.cls} (cause: {s.tag}) from `{construct[:80]}` can reach the caller of {entry.short}; it is not a documented httpcore exception "
            f"[{' > '.join(c.split(' ', 1)[0] for c in s.chain)}]", witness)
+
+
+def _removed_from_same_list(ctx: Context, N: Names, construct: str) -> bool:
+    f = N.func("connection_pool", "AsyncConnectionPool._assign_requests_to_connections")
+    for c in own_nodes(f.node):
+        if isinstance(c, ast.Call) and norm(c) == construct and c.args:
+            alts = [norm(a) for a in ctx.prov.expand(c.args[0], f, c)]
+            return bool(alts) and all("self._connections" in a for a in alts)
+    return False
 
 
 def _start_next_cycle_guarded(ctx: Context, N: Names) -> bool:
